@@ -635,6 +635,12 @@ func (e *endpoint) checkV4Mapped(addr *tcpip.FullAddress, allowMismatch bool) (t
 		return 0, tcpip.ErrInvalidEndpointState
 	}
 
+	// A destination must be an address of the network protocol the packet
+	// will be sent with.
+	if l := len(addr.Addr); !allowMismatch && l != 0 && (l == header.IPv4AddressSize) != (netProto == header.IPv4ProtocolNumber) {
+		return 0, tcpip.ErrNoRoute
+	}
+
 	return netProto, nil
 }
 
